@@ -73,6 +73,12 @@ var props = map[string]*propCfg{
 			"error and panic texts and GoString of values with several marks may list members in map order; they are compared by class only",
 			"tasks mutate only helper objects they own (copies of shared ValueSets/PathSets); the shared pool is built before the tasks start"},
 		stubs: []string{"caller tasks (seeded operation histories)", "scheduler choice (seeded baton scheduler replaces the Go scheduler's choice of who runs)", "sync.Pool and math/big cacheBase10 lock (overlay, simulation build only)", "capsule operations"}},
+	"C03": {quickRuns: 1 << 40, quickBudget: 40 * time.Second, thorBudget: 9 * time.Minute, thorRuns: 1 << 40, level: "exploration",
+		rule: "one evaluation = one simulated run: either (sets) a seeded history of 8..57 steps over up to 4 ValueSets and 4 set values of one element type (15 element types: numbers, strings, bool, lists, tuples, objects, maps, sets, two capsule types) drawn from a collision-biased population of 4..23 members (the same member re-represented at other precisions / spellings, nulls, refined unknowns) - Add, Remove, Has, Copy and diverge, Union/Intersection/Subtract/SymmetricDifference, SetVal of a drawn multiset in two orders, SetValFromValueSet, AsValueSet, HasElement, Length, stdlib set functions, re-adding in a shuffled order - with every touched set compared after every step with a model set keyed by the checker's own canonical key (exact integer or shortest decimal, NFC, member-wise, sets as sets; unknown-containing members never equal), plus the equivalence laws over sampled pairs and triples of the population; or (laws) pairs and triples over a mixed-type population with marks, nulls, unknowns and dynamic types. Every run is non-trivial; distinct = distinct (element type, population size, multiset of fired fault kinds).",
+		assumptions: []string{"number equality is the documented one: exact integer value, else the shortest decimal rendering (CHANGELOG 1.9.0); which of two unequal numbers is smaller may be decided on exact binary values or on those renderings",
+			"a member containing an unknown at any depth is never equal to anything, itself included: every Add of it is kept, no Remove or Has matches it",
+			"iteration order is compared only between wholly-known capsule-free sets with the same canonical members; which representative of an equivalence class a set keeps is not constrained"},
+		stubs: []string{"caller of the set API (seeded history)", "capsule equality/hash operations"}},
 	"C05": {quickRuns: 160000, quickBudget: 40 * time.Second, thorBudget: 9 * time.Minute, thorRuns: 1 << 40, level: "exploration",
 		rule: "one evaluation = one simulated run: either a seeded history of 1..12 refinement-builder calls with interleaved NewValue snapshots (builder reused after a snapshot, or refining restarted from a snapshot; rejected calls are the injected contradictions) checked call by call against an interval/nullness/prefix/length model with 8 membership candidates, or one generated string cut at every rune boundary with 5 continuations each. A run is non-trivial when at least one builder call was accepted or more than one cut was examined; distinct = distinct (start type and kind | string, multiset of fired fault kinds) among non-trivial runs.",
 		assumptions: []string{"numbers are compared by their shortest decimal rendering (integers exactly), as go-cty documents for Equals since 1.9.0",
